@@ -283,6 +283,13 @@ def run_history(pd, hook, sc, tid, chk, facts, lines, meta, nupd=None, salt=0):
     crossed = False
     total = nupd or sc["nupd"]
     rp = sc.get("rp") or [4, 4]
+    # interval programme: most histories advance by the default strain increment (0.2) per update; every fifth one
+    # makes LONG calls (strain 1.3 in ONE update: many solver steps, grains shrink through the threshold well inside
+    # the call - whatever the call does internally, "the orientation it had at the start of that update" is the
+    # snapshot stored before the call), every fifth one very short calls
+    dt = (layerb.DT, layerb.DT, 1.3, layerb.DT, 0.05)[tid % 5]
+    if dt > 1.0:
+        total = min(total, 4)
     for k in range(1, total + 1):
         if tid % 3 == 1:
             # threshold programme: the client edits the threshold IN PLACE in the one parameter dictionary it hands to
@@ -305,7 +312,7 @@ def run_history(pd, hook, sc, tid, chk, facts, lines, meta, nupd=None, salt=0):
         nsnap = len(m.orientations)
         hook.reset()
         try:
-            Fn = m.update_orientations(step_params, F, getL, (t, t + layerb.DT, getx))
+            Fn = m.update_orientations(step_params, F, getL, (t, t + dt, getx))
         except Exception as ex:  # noqa: BLE001 - rejected / failed updates belong to C07 / C01
             chk.skip("update-raised:" + type(ex).__name__)
             facts["updates_raised"] = facts.get("updates_raised", 0) + 1
@@ -320,7 +327,7 @@ def run_history(pd, hook, sc, tid, chk, facts, lines, meta, nupd=None, salt=0):
             F = Fn
         else:
             chk.skip("returned-deformation-gradient-unusable (C06's clause): the history goes on from the gradient handed in")
-        t += layerb.DT
+        t += dt
         if len(m.orientations) != nsnap + 1 or len(m.fractions) != nsnap + 1:
             chk.skip("update-did-not-append-one-snapshot")  # C01's clause
             break
@@ -681,7 +688,7 @@ def main(tier):
     return chk.finish(
         rule="cases: every (n, volume vector on the simplex grid, chi) of the TLC-enumerated domains (grid k/12 and dyadic k/16), distinct by that tuple, replayed into "
         "pydrex.utils.apply_gbs unless a volume hits a non-dyadic threshold exactly; histories: scenario classes (phase,fabric) x chi x M* x n_grains x flow x texture "
-        "enumerated by TLC (quick: index sum divisible by 6, all pairs and all chi x M* x n triples present), 10-20 updates of strain 0.2 each, one judged line per update, "
+        "enumerated by TLC (quick: index sum divisible by 6, all pairs and all chi x M* x n triples present), 10-20 updates of strain 0.2 each (every fifth history: up to 4 long updates of strain 1.3 each, every fifth: short ones of 0.05), one judged line per update, "
         "distinct by (class, update index); non-trivial = grains on both sides of the threshold and grains shrinking through it (counted in trace_facts)",
         exhaustive=False,
         trusted=["numpy array_equal decides 'exactly the orientation' (value equality of all 9 entries)",
